@@ -592,6 +592,26 @@ func (ex *Exec) step(fr *Frame, ins ssa.Instruction) {
 			panic(ex.unsupported("go statement"))
 		}
 		ex.W.goSkipped++
+		// the launch itself is recorded (which function, on which receiver / first argument), so that a wiring
+		// harness can state "every constructed worker is started exactly once"
+		ge := goLaunch{}
+		if x.Call.IsInvoke() {
+			ge.name = x.Call.Method.Name()
+			ge.recv = ex.get(fr, x.Call.Value)
+		} else {
+			if callee := x.Call.StaticCallee(); callee != nil {
+				ge.name = callee.Name()
+			} else {
+				ge.name = "closure"
+				if mc, ok := x.Call.Value.(*ssa.MakeClosure); ok {
+					ge.name = mc.Fn.Name()
+				}
+			}
+			if len(x.Call.Args) > 0 {
+				ge.recv = ex.get(fr, x.Call.Args[0])
+			}
+		}
+		ex.W.goLog = append(ex.W.goLog, ge)
 	case *ssa.ChangeInterface:
 		fr.locals[x] = ex.get(fr, x.X)
 	case *ssa.ChangeType:
